@@ -76,8 +76,10 @@ def control_to_abstract(c: t.Any) -> t.Dict[str, t.Any]:
     if tp is s.PagedResultControl:
         return {"type": B(c.control_type), "crit": bool(c.critical), "known": "paged", "hasValue": False, "value": [],
                 "size": limb(c.size), "cookie": B(c.cookie)}
-    if tp in (s.ShowDeletedControl, s.ShowDeactivatedLinkControl):
-        return {"type": B(c.control_type), "crit": bool(c.critical), "known": "noval", "hasValue": False, "value": [],
+    flag_oids = ("1.2.840.113556.1.4.417", "1.2.840.113556.1.4.2065")
+    if tp in (s.ShowDeletedControl, s.ShowDeactivatedLinkControl) or (tp is s.LDAPControl and c.control_type in flag_oids):
+        # a flag control may carry a value when a peer sent one (the decoder stores it on the object)
+        return {"type": B(c.control_type), "crit": bool(c.critical), "known": "noval", "hasValue": c.value is not None, "value": B(c.value),
                 "size": limb(0), "cookie": []}
     if tp is s.LDAPControl:
         return {"type": B(c.control_type), "crit": bool(c.critical), "known": "no", "hasValue": c.value is not None,
@@ -173,6 +175,8 @@ def control_from_abstract(c: t.Dict[str, t.Any]) -> t.Any:
     if c["known"] == "paged":
         return s.PagedResultControl(critical=c["crit"], size=unlimb(c["size"]), cookie=bytes(c["cookie"]))
     if c["known"] == "noval":
+        if c["hasValue"]:   # only a peer can produce this form: build it generically
+            return s.LDAPControl(S(c["type"]), c["crit"], bytes(c["value"]))
         cls = s.ShowDeletedControl if S(c["type"]) == SHOW_DELETED_OID else s.ShowDeactivatedLinkControl
         return cls(critical=c["crit"])
     return s.LDAPControl(S(c["type"]), c["crit"], bytes(c["value"]) if c["hasValue"] else None)
